@@ -33,5 +33,17 @@ def obligations(tier):
                      bound='payload length %d (instances around the buffer size: fits / payload fits but footer does not / larger), read buffer 16 bytes (hook)' % plen))
         ob.unwind_text = [('jls_core_rd_chunk', r'while \(1\)', 4)]     # at most: TOO_BIG, grow, success (proved by the unwinding assertion)
         o.append(ob)
-    # O2/O3/O4-definitions: harness/c13_defs.c exists but returned no verdict (symex > 30 min or solver > 18 GB); not claimed.
+    # O2/O3/O4 over the real raw layer + in-memory file (harness/c13_defs.c) returned no verdict; the same content over the chunk-store model of the raw layer:
+    hd = ['JLS_VERIF_SIGNAL_COUNT=3', 'JLS_VERIF_SOURCE_COUNT=3', 'JLS_VERIF_BUF_DEFAULT_SIZE=256', 'JLS_VERIF_BUF_STRING_SIZE=96', 'JLS_VERIF_FSR_BUFFER_U64=2', 'ST_N=20', 'ST_PMAX=144']
+    for nm, extra, desc in (('O2_O4_definitions_userdata_roundtrip', [], 'source + signal definitions (ids, verbatim numeric fields symbolic; strings fixed incl. absent and empty) and three user-data items '
+                             '(symbolic 12-bit tags and bytes) written by the real writer and parsed back by jls_core_scan_* / jls_core_sources / jls_core_signals / jls_core_user_data'),
+                            ('O3_identity_rules', ['MODE_IDENTITY=1'], 'duplicate source id, duplicate signal id, signal on an undefined source, data for an undefined signal: error code; no chunk is appended and no header or payload byte of the store changes')):
+        o.append(Obl(nm, 'c13_codec.c', units=['core.c', 'track.c', 'writer.c', 'buffer.c', 'reader.c'],
+                     defines=hd + extra, unwind=100, typed_calloc=True, flags=['--max-field-sensitivity-array-size', '4096'],
+                     unwind_text=[('jls_core_scan_initial', r'for \(int i = 0', 12), ('jls_core_scan_sources', r'while \(1\)', 4), ('jls_core_scan_signals', r'while \(1\)', 14),
+                                  ('jls_core_user_data', r'while \(pos\)', 6), ('jls_core_rd_chunk', r'while \(1\)', 3), ('jls_buf_rd_str', r'while \(self->cur != self->end\)', 8),
+                                  ('jls_buf_realloc', r'while \(alloc_size < size\)', 3)],
+                     timeout=800, backend=PORTFOLIO, mem_gb=20, objbits=10, desc=desc,
+                     bound='one user source, one FSR signal, three user-data items; string contents and payload sizes fixed, ids/fields/tags/bytes symbolic',
+                     assumes=['raw layer replaced by the chunk-store model rawstore.h (no checksums); wr_ts.c / wr_fsr.c not linked']))
     return o
